@@ -68,9 +68,17 @@ theorem mCtxLane_lt (l l' : Lane V) (h : mCtxLane l = some l') : laneW l' < lane
   unfold mCtxLane at h
   split at h
   · simp at h
-  · next hne =>
-    simp at h; subst h
+  · simp at h
+  · simp at h; subst h
     cases hm : l.m <;> simp_all [laneW, mW]
+
+theorem mStartLane_lt (k : Bool) (l l' : Lane V) (h : mStartLane k l = some l') : laneW l' < laneW l := by
+  unfold mStartLane at h
+  split at h
+  · next hm =>
+    simp at h; subst h
+    cases k <;> simp [laneW, hm, mW, hW] <;> cases l.h <;> simp [hW] <;> omega
+  · simp at h
 
 theorem mEofLane_lt (l l' : Lane V) (h : mEofLane l = some l') : laneW l' < laneW l := by
   unfold mEofLane at h
@@ -82,6 +90,11 @@ theorem mEofLane_lt (l l' : Lane V) (h : mEofLane l = some l') : laneW l' < lane
 theorem step_work [DecidableEq V] (P : Params V) (c c' : Cfg V) (lbl : Lbl V) (hi : lbl.internal = true)
     (h : step P c lbl = some c') : c'.work < c.work := by
   cases lbl with
+  | mStart i =>
+    simp only [step] at h
+    split at h
+    · exact onLane_work c c' i _ h (mStartLane_lt _)
+    · simp at h
   | hStart i => exact onLane_work c c' i _ h (hStartLane_lt _ _)
   | hCtx i =>
     simp only [step] at h
@@ -174,30 +187,55 @@ theorem countP_all (ls : List (Lane V)) (p : Lane V → Bool) (h : ∀ l ∈ ls,
     have := ih (fun l hl => h l (by simp [hl]))
     simp [ha, this]
 
+/-- a lane whose turn has come and none of whose threads can move under cancellation has ended -/
+theorem lane_stuck_ended [DecidableEq V] (P : Params V) (c : Cfg V) (hw : P.watch = true) (hc : c.cancelled = true)
+    (hst : ∀ lbl : Lbl V, lbl.internal = true → step P c lbl = none) (i : Nat) (hi : i < c.lanes.length)
+    (hprev : c.prevEnded i = true) : c.lanes[i].h = .ended ∧ c.lanes[i].m = .ended := by
+  have hli : c.lanes[i]? = some c.lanes[i] := by simp [hi]
+  have hns : c.lanes[i].m ≠ .notStarted := by
+    intro hm
+    have := hst (.mStart i) rfl
+    simp only [step, hprev, if_true] at this
+    have := onLane_none_of c i _ _ hli this
+    simp [mStartLane, hm] at this
+  constructor
+  · have := hst (.hCtx i) rfl
+    simp only [step, hc, if_true] at this
+    have := onLane_none_of c i _ _ hli this
+    unfold hCtxLane at this
+    split at this
+    · simp at this
+    · simp [hw] at this
+    · assumption
+  · have := hst (.mCtx i) rfl
+    simp only [step, hc, if_true] at this
+    have := onLane_none_of c i _ _ hli this
+    unfold mCtxLane at this
+    split at this
+    · assumption
+    · next h => exact absurd h hns
+    · simp at this
+
 theorem stuck_cancelled_ended [DecidableEq V] (P : Params V) (c : Cfg V) (hw : P.watch = true) (hc : c.cancelled = true)
     (hret : P.retAfter ≤ c.lanes.length)
     (hst : ∀ lbl : Lbl V, lbl.internal = true → step P c lbl = none) :
     c.allEnded ∧ c.execDone = true ∧ (c.loop = .returned ∨ c.loop = .inSend) := by
+  have hidx : ∀ i (hi : i < c.lanes.length), c.lanes[i].h = .ended ∧ c.lanes[i].m = .ended := by
+    intro i
+    induction i with
+    | zero =>
+      intro hi
+      exact lane_stuck_ended P c hw hc hst 0 hi (by simp [Cfg.prevEnded])
+    | succ j ih =>
+      intro hi
+      have hj := ih (by omega)
+      refine lane_stuck_ended P c hw hc hst (j + 1) hi ?_
+      have : c.lanes[j]? = some c.lanes[j] := by simp [show j < c.lanes.length by omega]
+      simp [Cfg.prevEnded, this, hj.2, MSt.isEnded]
   have hall : c.allEnded := by
     intro l hl
     obtain ⟨i, hi, rfl⟩ := List.getElem_of_mem hl
-    have hli : c.lanes[i]? = some c.lanes[i] := by simp [hi]
-    constructor
-    · have := hst (.hCtx i) rfl
-      simp only [step, hc, if_true] at this
-      have := onLane_none_of c i _ _ hli this
-      unfold hCtxLane at this
-      split at this
-      · simp at this
-      · simp [hw] at this
-      · assumption
-    · have := hst (.mCtx i) rfl
-      simp only [step, hc, if_true] at this
-      have := onLane_none_of c i _ _ hli this
-      unfold mCtxLane at this
-      split at this
-      · assumption
-      · simp at this
+    exact hidx i hi
   have hcount : c.endedCount = c.lanes.length := by
     apply countP_all
     intro l hl
@@ -222,6 +260,10 @@ theorem onLane_cancelled (c c' : Cfg V) (i : Nat) (f : Lane V → Option (Lane V
 theorem step_cancelled [DecidableEq V] (P : Params V) (c c' : Cfg V) (lbl : Lbl V) (h : step P c lbl = some c')
     (hc : c.cancelled = true) : c'.cancelled = true := by
   cases lbl <;> simp only [step] at h
+  case mStart i =>
+    split at h
+    · rw [onLane_cancelled _ _ _ _ h]; exact hc
+    · simp at h
   case hStart i => rw [onLane_cancelled _ _ _ _ h]; exact hc
   case hCtx i =>
     rw [if_pos hc] at h
@@ -270,6 +312,12 @@ theorem onLane_parked (c c' : Cfg V) (i j : Nat) (f : Lane V → Option (Lane V)
 theorem step_parked [DecidableEq V] (P : Params V) (hw : P.watch = false) (c c' : Cfg V) (lbl : Lbl V) (i : Nat)
     (h : step P c lbl = some c') (hp : c.parked i) : c'.parked i := by
   cases lbl <;> simp only [step] at h
+  case mStart j =>
+    split at h
+    · refine onLane_parked c c' i j _ h ?_ hp
+      intro l l' hl ⟨_, hm⟩
+      simp [mStartLane, hm] at hl
+    · simp at h
   case hStart j =>
     refine onLane_parked c c' i j _ h ?_ hp
     intro l l' hl ⟨⟨v, hv⟩, _⟩
@@ -341,6 +389,10 @@ theorem step_logInv [DecidableEq V] (P : Params V) (n : Nat) (c c' : Cfg V) (lbl
     (h : step P c lbl = some c') (hi : c.logInv P.red n) : c'.logInv P.red n := by
   unfold Cfg.logInv at *
   cases lbl <;> simp only [step] at h
+  case mStart j =>
+    split at h
+    · obtain ⟨h1, h2⟩ := onLane_st_log _ _ _ _ h; rw [h1, h2]; exact hi
+    · simp at h
   case hStart j => obtain ⟨h1, h2⟩ := onLane_st_log _ _ _ _ h; rw [h1, h2]; exact hi
   case hCtx j =>
     split at h
@@ -408,6 +460,10 @@ theorem run_lanes_length [DecidableEq V] (P : Params V) (ls : List (Lbl V)) (c c
         split at h1
         · obtain ⟨_, _, _, _, rfl⟩ := onLane_some _ _ _ _ h1; simp
         · simp at h1
+      case mStart j =>
+        split at h1
+        · obtain ⟨_, _, _, _, rfl⟩ := onLane_some _ _ _ _ h1; simp
+        · simp at h1
       case mCtx j =>
         split at h1
         · obtain ⟨_, _, _, _, rfl⟩ := onLane_some _ _ _ _ h1; simp
@@ -438,5 +494,66 @@ theorem left_pos_of_parked (c : Cfg V) (i : Nat) (h : c.parked i) : 0 < c.left :
     rw [List.countP_pos_iff]
     exact ⟨l, List.mem_of_getElem? hl, by simp [hv, HSt.isEnded]⟩
   omega
+
+
+/-! ## `succs` decides quiescence -/
+
+theorem onLane_out_of_range (c : Cfg V) (i : Nat) (f : Lane V → Option (Lane V)) (h : c.lanes.length ≤ i) :
+    c.onLane i f = none := by
+  simp [Cfg.onLane, List.getElem?_eq_none h]
+
+theorem step_out_of_range [DecidableEq V] (P : Params V) (c : Cfg V) (i : Nat) (h : c.lanes.length ≤ i) :
+    step P c (.mStart i) = none ∧ step P c (.hStart i) = none ∧ step P c (.hCtx i) = none ∧ step P c (.hand i) = none
+    ∧ step P c (.mCtx i) = none ∧ step P c (.mEof i) = none ∧ step P c (.give i) = none := by
+  simp [step, onLane_out_of_range c i _ h, List.getElem?_eq_none h]
+
+theorem mem_internalLabels (n i : Nat) (h : i < n) :
+    (.mStart i : Lbl V) ∈ internalLabels n ∧ (.hStart i : Lbl V) ∈ internalLabels n ∧ (.hCtx i : Lbl V) ∈ internalLabels n
+    ∧ (.hand i : Lbl V) ∈ internalLabels n ∧ (.mCtx i : Lbl V) ∈ internalLabels n ∧ (.mEof i : Lbl V) ∈ internalLabels n
+    ∧ (.give i : Lbl V) ∈ internalLabels n := by
+  simp [internalLabels, List.mem_flatMap, List.mem_range, h]
+
+/-- no successor listed = no thread of the pipeline can take a step -/
+theorem succs_isEmpty_iff [DecidableEq V] (P : Params V) (c : Cfg V) :
+    (succs P c).isEmpty = true ↔ ∀ lbl : Lbl V, lbl.internal = true → step P c lbl = none := by
+  simp only [succs, List.isEmpty_iff, List.filterMap_eq_nil_iff]
+  constructor
+  · intro h lbl hi
+    have hin : ∀ i, i < c.lanes.length ∨ c.lanes.length ≤ i := fun i => Nat.lt_or_ge i c.lanes.length
+    cases lbl with
+    | mStart i => rcases hin i with hi | hi
+                  · exact h _ (mem_internalLabels _ i hi).1
+                  · exact (step_out_of_range P c i hi).1
+    | hStart i => rcases hin i with hi | hi
+                  · exact h _ (mem_internalLabels _ i hi).2.1
+                  · exact (step_out_of_range P c i hi).2.1
+    | hCtx i => rcases hin i with hi | hi
+                · exact h _ (mem_internalLabels _ i hi).2.2.1
+                · exact (step_out_of_range P c i hi).2.2.1
+    | hand i => rcases hin i with hi | hi
+                · exact h _ (mem_internalLabels _ i hi).2.2.2.1
+                · exact (step_out_of_range P c i hi).2.2.2.1
+    | mCtx i => rcases hin i with hi | hi
+                · exact h _ (mem_internalLabels _ i hi).2.2.2.2.1
+                · exact (step_out_of_range P c i hi).2.2.2.2.1
+    | mEof i => rcases hin i with hi | hi
+                · exact h _ (mem_internalLabels _ i hi).2.2.2.2.2.1
+                · exact (step_out_of_range P c i hi).2.2.2.2.2.1
+    | give i => rcases hin i with hi | hi
+                · exact h _ (mem_internalLabels _ i hi).2.2.2.2.2.2
+                · exact (step_out_of_range P c i hi).2.2.2.2.2.2
+    | execCancel => exact h _ (by simp [internalLabels])
+    | execRet => exact h _ (by simp [internalLabels])
+    | loopErr => exact h _ (by simp [internalLabels])
+    | poke i x => simp [Lbl.internal] at hi
+    | sendOk => simp [Lbl.internal] at hi
+    | sendFail => simp [Lbl.internal] at hi
+    | cancel => simp [Lbl.internal] at hi
+  · intro h lbl hl
+    apply h
+    simp only [internalLabels, List.mem_append, List.mem_flatMap, List.mem_range] at hl
+    rcases hl with ⟨i, _, hm⟩ | hm
+    · simp at hm; rcases hm with rfl | rfl | rfl | rfl | rfl | rfl | rfl <;> rfl
+    · simp at hm; rcases hm with rfl | rfl | rfl <;> rfl
 
 end ScVerif.C17.Pipe
